@@ -74,7 +74,17 @@ def make_spec(pid, profile, rule_extra, n_quick=100, n_thorough=6000, extra_orac
                 kinds[op[0]] = kinds.get(op[0], 0) + 1
             if o['error']:
                 errors[o['error']['type']] = errors.get(o['error']['type'], 0) + 1
-        return {'distribution': {'op_kinds': kinds, 'totals': tot, 'skipped_by_error_type': errors}}
+        cov = {'distribution': {'op_kinds': kinds, 'totals': tot, 'skipped_by_error_type': errors}}
+        # which of the generated histories satisfy the side conditions of the all-histories theorems (Sched/SideCond.v)
+        try:
+            from .. import sidecond
+            terms = [ecell.case_term(c, o['ops']) for c, o in zip(cases, obs) if o.get('error') is None][:60]
+            with core.build_lock():
+                okm, _log = core.make(['Sched/SideCond'])
+                cov['side_conditions'] = sidecond.evaluate(ecell.PREAMBLE, terms) if okm else {'error': 'SideCond does not build'}
+        except Exception as exc:   # noqa  (reporting only)
+            cov['side_conditions'] = {'error': '%s: %s' % (type(exc).__name__, str(exc)[:120])}
+        return cov
 
     return {
         'model_vos': ecell.MODEL_VOS, 'table_sections': list(table_sections) + ['source_shape'],
